@@ -61,6 +61,17 @@ Definition writers_expected : list string :=
     "Session.makeOffline:Online+dirty"; "Session.notify:dirty";
     "Session.onlineTransition:IP4+IP6GUA+IP6LLA+Online+dirty" ].
 
+(* every read of the wall clock (time.Now / time.Since) and every comparison of time stamps (Sub / Before / After) in
+   hosttable.go, mactable.go, session.go, layer_frame.go, notification.go, per function:
+     findOrCreateHostWithLock: Now -> the [now] of Rx / DHCPv4Update (LastSeen of host and MAC entry, every call);
+     Config.NewSession: Now x3 -> [new_session]'s t0 (own host: t0 + year), the purge ticker (purge(now): the [now] of Purge)
+       and a log line;  Session.purge: the three cut-off comparisons (probe: not modelled; offline, delete: [age]);
+     FastLog (Host, MACEntry): log text only.
+   The real-time kind rt (D04, D06) is the behavioural tie of these reads; this list makes a NEW read a tie-only alarm. *)
+Definition clocks_expected : list string :=
+  [ "hosttable.go:Host.FastLog:Since*1"; "hosttable.go:Session.findOrCreateHostWithLock:Now*1";
+    "mactable.go:MACEntry.FastLog:Since*1"; "session.go:Config.NewSession:Now*3"; "session.go:Session.purge:cmp*3" ].
+
 Definition consts_expected : string :=
   "probe=" ++ dec_of_Z default_probe ++ ",offline=" ++ dec_of_Z default_offline ++ ",purge=" ++ dec_of_Z default_purge ++
   ",maxprobe=" ++ dec_of_Z max_probe ++ ",maxoffline=" ++ dec_of_Z max_offline ++ ",maxpurge=" ++ dec_of_Z max_purge ++
@@ -72,7 +83,8 @@ Definition dispatch (kind : string) (args : list string) : string :=
   if String.eqb kind "src" then
     match args with
     | [w] => if String.eqb w "writers" then out3 (join ";" writers_expected) "-" "-"
-             else if String.eqb w "consts" then out3 consts_expected "-" "-" else BADARGS
+             else if String.eqb w "consts" then out3 consts_expected "-" "-"
+             else if String.eqb w "clocks" then out3 (join ";" clocks_expected) "-" "-" else BADARGS
     | _ => BADARGS
     end
   else if String.eqb kind "dl" then     (* dl <probe> <offline> <purge>: does NewSession accept these deadlines (seconds)? *)
